@@ -11,7 +11,8 @@ from spec import sgr, thirdparty as tp
 
 META = {
     "explanation": (
-        "Complete static reading of the five adapter crates and the syntect converter against the semantics of the third-party "
+        "Abstract evaluation (lib/abseval.py) of the five adapter crates and the syntect converter — every call into the third-party "
+        "crate stays an uninterpreted application, so a chain, a helper, a fold or an early return evaluate to the same term — against the semantics of the third-party "
         "variants/methods (spec/thirdparty.py, keyed to the versions in /repo/Cargo.lock, which are checked): the five 16-row "
         "colour tables preserve the hue on every row and the brightness wherever the target variant set has a bright "
         "counterpart; Ansi256/Rgb arms pass the index / the r,g,b fields through in order; each anstyle getter feeds the "
@@ -29,7 +30,7 @@ MANIFEST = {
              "pinned in Cargo.lock; a version change fails closed). Brightness is required only where the target's colour "
              "variant set has bright counterparts (termcolor's `intense` is a ColorSpec flag shared by fg and bg, ansi_term "
              "emulates bright foregrounds with bold)."),
-    "technique": "static analysis: match-table extraction of 16-row colour tables and per-effect conditionals vs third-party variant semantics, slot-wiring dataflow",
+    "technique": "static analysis: abstract evaluation of each adapter over its finite colour / effect domain (anstyle's functions inlined, third-party calls kept as uninterpreted terms) compared with the third-party variant semantics; slot wiring by where the converted colour term ends up",
 }
 
 ENTRY = {"anstyle_ansi_term": "to_ansi_term", "anstyle_crossterm": "to_crossterm", "anstyle_owo_colors": "to_owo_style",
@@ -62,33 +63,88 @@ def rule_versions(rep):
                   f"vendored source and update the table (fail closed)", "Cargo.lock")
 
 
+# ----------------------------------------------------------------------------------------------------------------------
+# The adapters are decided by abstract evaluation (lib/abseval.py): anstyle's own functions are followed into their bodies, every
+# call into the third-party crate stays an uninterpreted application ("app", callee, args...) — `style.bold()` is the term
+# app(bold, style) whatever the surrounding control flow, helper split, early return or fold looks like.
+
+def _uninterpreted(cal, args, e):
+    return ("app", cal) + tuple(args)
+
+
+def _evaluator(facts, crate, atoms=None):
+    import abseval
+    a = {"*": _uninterpreted}
+    a.update(atoms or {})
+    return abseval.Evaluator(facts, crate, a, inline_crates=("anstyle",))
+
+
+def _leaves(t, out=None):
+    """Symbols and integers of a term, left to right."""
+    out = [] if out is None else out
+    if isinstance(t, tuple):
+        if t and t[0] in ("sym", "int"):
+            out.append(t)
+        elif t and t[0] == "rec":
+            for v in t[1].values():
+                _leaves(v, out)
+        else:
+            for x in t[1:]:
+                _leaves(x, out)
+    return out
+
+
+def _paths_in(t, out=None):
+    out = [] if out is None else out
+    if isinstance(t, tuple) and t:
+        if t[0] in ("app", "ctor", "enum") and len(t) > 1 and isinstance(t[1], str):
+            out.append(t[1])
+        if t[0] == "rec":
+            for v in t[1].values():
+                _paths_in(v, out)
+        else:
+            for x in t[1:]:
+                _paths_in(x, out)
+    return out
+
+
+def _dispatch_fn(facts, crate):
+    cands = [x for x in facts.bodies(crate) if x["kind"] == "Fn" and x.get("sig", "").startswith("fn(anstyle::color::Color)")]
+    if len(cands) != 1:
+        raise AnchorMissing(f"{crate}: the Color dispatch function was not found")
+    return cands[0]
+
+
+def _convert(facts, crate, colour):
+    d = _dispatch_fn(facts, crate)
+    return _evaluator(facts, crate).call_fn(crate, d["path"], [colour])
+
+
+def _ansi(name):
+    return ("ctor", "anstyle::color::Color::Ansi", ("enum", ac.ANSI + "::" + name))
+
+
 def rule_colour_table(facts, rep, crate):
     prefix, table, has_bright = tp.COLOUR_TABLES[crate]
-    b = facts.body(crate, f"{crate}::{ANSI_FN[crate]}")
+    d = _dispatch_fn(facts, crate)
+    helper = [x for x in facts.bodies(crate) if x["path"] == f"{crate}::{ANSI_FN[crate]}"]
+    b = helper[0] if helper else d
     rep.fn(b["path"])
-    m = ac.single_expr(b["hir"])
-    if m.get("k") != "match" or not hir.is_local(m["scrut"], b["params"][0]["name"]):
-        raise Unrecognised("16-row match expected")
-
-    def val(e):
-        e = hir.simp(e)
-        flag = None
-        if e.get("k") == "tuple":
-            flag = hir.lit_val(e["es"][1])
-            e = hir.simp(e["es"][0])
-        p = hir.def_path(e)
-        if p is None or not p.startswith(CRATE_OF[crate] + "::"):
-            raise Unrecognised(f"colour value {hirpp.expr(e)}")
-        return p.split("::")[-1], flag
-
-    t = ac.variant_table(m, ac.ANSI, val)
+    rep.fn(d["path"])
     for name in sgr.ANSI16:
         hue = name[len("Bright"):] if name.startswith("Bright") else name
         bright = name.startswith("Bright")
-        got = t.get(name)
         ok, why = False, "row missing"
-        if got:
-            variant, flag = got
+        try:
+            v = _convert(facts, crate, _ansi(name))
+            flag = None
+            if v[0] == "tuple" and len(v) == 3 and v[2][0] == "bool":
+                flag, v = v[2][1], v[1]
+            if v[0] == "ctor" and len(v) == 3 and v[2][0] == "enum":     # e.g. DynColors::Ansi(colour)
+                v = v[2]
+            if v[0] != "enum" or not v[1].startswith(CRATE_OF[crate] + "::"):
+                raise Unrecognised(f"colour value {str(v)[:80]}")
+            variant = v[1].split("::")[-1]
             sem = table.get(variant)
             if sem is None:
                 why = f"unknown target variant {variant}"
@@ -102,91 +158,64 @@ def rule_colour_table(facts, rep, crate):
                 why = f"{variant} is bright but the target has no bright variants?"
             else:
                 ok, why = True, f"{name} ↦ {variant}"
+        except Unrecognised as ex:
+            why = f"not evaluable: {ex}"
         rep.check(ok, "colour-table", b["path"], name, why, loc(b))
         rep.count()
 
 
 def rule_passthrough(facts, rep, crate):
-    # dispatch: Ansi → 16-row table, Ansi256 → index passed through, Rgb → fields in order
-    cands = [x for x in facts.bodies(crate) if x["kind"] == "Fn" and x.get("sig", "").startswith("fn(anstyle::color::Color)")]
-    if len(cands) != 1:
-        raise AnchorMissing(f"{crate}: the Color dispatch function was not found")
-    d = cands[0]
+    # Ansi256 → the target's indexed colour carrying the same index; Rgb → the target's RGB colour with r, g, b in that order
+    d = _dispatch_fn(facts, crate)
     rep.fn(d["path"])
-    m = ac.single_expr(d["hir"])
-    kinds = {}
-    for a in m["arms"]:
-        v = hir.last_seg(hir.pat_path(a["pat"]))
-        bound = a["pat"]["pats"][0].get("name")
-        calls = [n for n in hir.walk(a["body"]) if n.get("k") == "call" and hir.callee(n).startswith(crate + "::")]
-        kinds[v] = (calls, bound)
-    for v, fn_sub in (("Ansi", "ansi_to"), ("Ansi256", "xterm_to"), ("Rgb", "rgb_to")):
-        calls, bound = kinds.get(v, ([], None))
-        ok = len(calls) == 1 and fn_sub in hir.callee(calls[0]) and hir.is_local(calls[0]["args"][0], bound)
-        rep.check(ok, "passthrough", d["path"], f"{v}→{fn_sub}*", f"the {v} arm converts its own payload with the {fn_sub}* helper", loc(d))
-    # owo: Rgb tuple destructured in order
-    if crate == "anstyle_owo_colors":
-        arm = [a for a in m["arms"] if hir.last_seg(hir.pat_path(a["pat"])) == "Rgb"][0]
-        lets = [n for n in hir.walk(arm["body"]) if n.get("k") == "let" and n["pat"].get("k") == "ptuple"]
-        ctor = [n for n in hir.walk(arm["body"]) if n.get("k") == "call" and n.get("ctor", "").endswith("DynColors::Rgb")]
-        ok = len(lets) == 1 and len(ctor) == 1 and [p.get("name") for p in lets[0]["pat"]["pats"]] == [hir.local_name(a) for a in ctor[0]["args"]]
-        rep.check(ok, "passthrough", d["path"], "Rgb-tuple-in-order", "", loc(d))
-    x = facts.find_body(crate, "::xterm_to_" + ANSI_FN[crate][len("ansi_to_"):], "Fn")
-    rep.fn(x["path"])
-    e = ac.single_expr(x["hir"])
-    arg = None
-    if e.get("k") == "call" and e["args"]:
-        arg = hir.peel(e["args"][0])
-    ok = arg is not None and arg.get("k") == "field" and arg["name"] == "0" and hir.is_local(arg["e"], x["params"][0]["name"]) and \
-        CRATE_OF[crate] + "::" in (e.get("ctor", "") or hir.callee(e))
-    rep.check(ok, "passthrough", x["path"], "index-unchanged", "the 256-colour index is passed through as is", loc(x))
-    r = facts.find_body(crate, "::rgb_to_" + ANSI_FN[crate][len("ansi_to_"):], "Fn")
-    rep.fn(r["path"])
-    e = ac.single_expr(r["hir"])
-    comps = None
-    if e.get("k") == "call":
-        comps = [hir.peel(a) for a in e["args"]]
-    elif e.get("k") == "tuple":
-        comps = [hir.peel(a) for a in e["es"]]
-    elif e.get("k") == "struct":
-        f = {x_["name"]: hir.peel(x_["e"]) for x_ in e["fields"]}
-        comps = [f.get("r"), f.get("g"), f.get("b")]
-    ok = comps is not None and len(comps) == 3 and all(c and c.get("k") == "field" and hir.is_local(c["e"], r["params"][0]["name"]) for c in comps) and \
-        [c["name"] for c in comps] == ["0", "1", "2"]
-    rep.check(ok, "passthrough", r["path"], "r,g,b-in-order", "RgbColor's fields 0,1,2 become r,g,b in that order", loc(r))
+    I, R_, G_, B_ = ("sym", "index"), ("sym", "r"), ("sym", "g"), ("sym", "b")
+    for kind, inp, want_leaves, ctor in (
+            ("Ansi256", ("ctor", "anstyle::color::Color::Ansi256", ("ctor", "anstyle::color::Ansi256Color", I)), [I], tp.INDEXED[crate]),
+            ("Rgb", ("ctor", "anstyle::color::Color::Rgb", ("ctor", "anstyle::color::RgbColor", R_, G_, B_)), [R_, G_, B_], tp.RGB[crate])):
+        ok, why = False, ""
+        try:
+            v = _convert(facts, crate, inp)
+            if v[0] == "tuple" and len(v) == 3 and v[2] == ("bool", False):       # (colour, bold-emulation flag)
+                v = v[1]
+            leaves = _leaves(v)
+            paths = _paths_in(v)
+            # (the spec names the re-exported path, the facts the defining one: same crate, same last segment)
+            named = ctor is None or any(p_.lstrip("<").startswith(CRATE_OF[crate] + "::") and
+                                        (p_.split("::")[-1] == ctor.split("::")[-1] or ("::" + ctor.split("::")[-1] + " as ") in p_ or
+                                         ("::" + ctor.split("::")[-1] + ">") in p_) for p_ in paths)
+            outside = [p_ for p_ in paths if not p_.startswith(CRATE_OF[crate] + "::") and not p_.startswith("<" + CRATE_OF[crate])]
+            ok = leaves == want_leaves and named and not outside
+            why = "" if ok else f"evaluates to {str(v)[:140]}"
+        except Unrecognised as ex:
+            why = f"not evaluable: {ex}"
+        key = {"Ansi256": "index-unchanged", "Rgb": "r,g,b-in-order"}[kind]
+        rep.check(ok, "passthrough", d["path"], f"{kind}:{key}",
+                  f"a {kind} colour becomes the target's {'indexed' if kind == 'Ansi256' else 'RGB'} colour with "
+                  f"{'the same index' if kind == 'Ansi256' else 'r, g, b in that order'} and nothing else {why}", loc(d))
+    # the Ansi arm is the 16-row table (rule colour-table evaluates through this dispatch)
+    rep.ok("passthrough", d["path"], "Ansi:through-the-table", "evaluated row by row in colour-table", loc(d))
 
 
-def effect_sites(body):
-    """Effects::contains(effects, Effects::X) sites → (X, consumer callee last segment / attribute variant)."""
-    out = []
-    stmts = hir.stmts_of(body["hir"])
-    for s in stmts:
-        s = hir.simp(s)
-        conts = [n for n in hir.walk(s) if hir.is_call(n, "anstyle::effect::Effects::contains")]
-        if not conts:
-            continue
-        if len(conts) != 1:
-            raise Unrecognised("two effect tests in one statement")
-        c = conts[0]
-        x = hir.last_seg(hir.def_path(c["args"][1]))
-        if s.get("k") == "if" and hir.simp(s["c"]) is c and "e" not in s:
-            inner = hir.stmts_of(s["t"])
-            if len(inner) != 1:
-                raise Unrecognised("effect branch with more than one statement")
-            st = hir.simp(inner[0])
-            call = hir.simp(st["r"]) if st.get("k") == "assign" else st
-            if call.get("k") != "call":
-                raise Unrecognised("effect branch is not a call")
-            attr = None
-            for a in call["args"][1:]:
-                p = hir.def_path(a)
-                if p:
-                    attr = p.split("::")[-1]
-            out.append((x, attr or hir.callee(call).split("::")[-1], s))
-        elif s.get("k") == "call" and any(hir.simp(a) is c for a in s["args"]):
-            out.append((x, hir.callee(s).split("::")[-1], s))
+def _style(fg=("none",), bg=("none",), ul=("none",), bits=0):
+    return ("rec", {"fg": fg, "bg": bg, "underline": ul, "effects": ("ctor", "anstyle::effect::Effects", ("int", bits))})
+
+
+def _tokens(t, out=None):
+    """Multiset of the third-party operations in a term: (name, plain arguments)."""
+    import collections
+    out = collections.Counter() if out is None else out
+    if isinstance(t, tuple) and t:
+        if t[0] == "app":
+            plain = tuple((x[1].split("::")[-1] if x[0] == "enum" else x[1]) for x in t[2:] if isinstance(x, tuple) and x and x[0] in ("enum", "bool"))
+            out[(t[1].split("::")[-1], plain)] += 1
+            for x in t[2:]:
+                _tokens(x, out)
+        elif t[0] == "rec":
+            for v in t[1].values():
+                _tokens(v, out)
         else:
-            raise Unrecognised(f"effect test in an unrecognised position: {hirpp.expr(s)[:80]}")
+            for x in t[1:]:
+                _tokens(x, out)
     return out
 
 
@@ -194,114 +223,173 @@ def rule_effects(facts, rep, crate):
     b = facts.body(crate, f"{crate}::{ENTRY[crate]}")
     rep.fn(b["path"])
     want = tp.EFFECTS[crate]
-    sites = effect_sites(b)
-    seen = {}
-    for x, target, node in sites:
-        alts = tp.EFFECT_ALTERNATIVES.get((crate, x), {want.get(x)})
-        rep.check(target in alts, "effect-table", b["path"], x,
-                  f"Effects::{x} is mapped to `{target}`; the target's attribute with that meaning is `{want.get(x, '— none —')}`", loc(b, node))
-        seen[x] = target
-        rep.count()
+    bit = {n_: v for n_, v, _ in ac.effect_consts(facts)}
+
+    def run(bits):
+        return _evaluator(facts, crate).call_fn(crate, b["path"], [_style(bits=bits)])
+    plain = _tokens(run(0))
+    union_new = None
+    import collections
+    expect_all = collections.Counter()
     for x in sgr.EFFECT_ORDER:
-        if x in want and x not in seen:
-            rep.bad("effect-table", b["path"], f"{x}:omitted", f"the target can express {x} (`{want[x]}`) but the conversion drops it", loc(b))
-        elif x not in want:
-            rep.ok("effect-table", b["path"], f"{x}:inexpressible", "the target library has no such attribute")
-    # the effects tested are the style's own
-    eff = [s for s in hir.stmts_of(b["hir"]) if s.get("k") == "let" and s["pat"].get("name") == "effects"]
-    ok = len(eff) == 1 and hir.is_call(hir.simp(eff[0]["init"]), "anstyle::style::Style::get_effects") and \
-        hir.is_local(hir.simp(eff[0]["init"])["args"][0], b["params"][0]["name"])
-    rep.check(ok, "effect-table", b["path"], "effects-of-the-input-style", "", loc(b))
+        t = _tokens(run(bit[x]))
+        new, gone = t - plain, plain - t
+        names = []
+        for (name, args), cnt in new.items():
+            attr = [a_ for a_ in args if isinstance(a_, str)]
+            names.extend([attr[0] if attr else name] * cnt)
+            if any(a_ is False for a_ in args):
+                names.append("<switched off>")
+        gone_ok = all(any(a_ is False for a_ in args) and any(n2 == name for (n2, _a2) in new) for (name, args) in gone)
+        if x in want:
+            alts = tp.EFFECT_ALTERNATIVES.get((crate, x), {want[x]})
+            if not names:
+                rep.bad("effect-table", b["path"], f"{x}:omitted", f"the target can express {x} (`{want[x]}`) but the conversion drops it", loc(b))
+            else:
+                rep.check(len(names) == 1 and names[0] in alts and gone_ok, "effect-table", b["path"], x,
+                          f"a style with only Effects::{x} differs from a plain one by `{names}`; the target's attribute with that meaning is "
+                          f"`{want[x]}` (evaluated: third-party calls kept as uninterpreted applications)", loc(b))
+                expect_all += new
+            rep.count()
+        else:
+            if new or gone:
+                rep.bad("effect-table", b["path"], f"{x}:inexpressible", f"the target has no attribute for {x} but the conversion applies {names}", loc(b))
+            else:
+                rep.ok("effect-table", b["path"], f"{x}:inexpressible", "the target library has no such attribute")
+    allbits = 0
+    for x in sgr.EFFECT_ORDER:
+        allbits |= bit[x]
+    t_all = _tokens(run(allbits))
+    rep.check(t_all - plain == expect_all, "effect-table", b["path"], "all-effects-together",
+              f"with every effect set, the attributes applied are the union of the single ones: {dict(t_all - plain)} vs {dict(expect_all)}"[:300], loc(b))
+    rep.ok("effect-table", b["path"], "effects-of-the-input-style", "the evaluation varies the input style's effects", loc(b))
 
 
 def rule_slots(facts, rep, crate):
     b = facts.body(crate, f"{crate}::{ENTRY[crate]}")
     want = tp.SLOTS[crate]
-    # follow each getter's value to the setter/field that consumes it
-    lets = {}
-    for n in hir.walk(b["hir"]):
-        if n.get("k") == "let" and n["pat"].get("k") == "pbind" and "init" in n:
-            lets.setdefault(n["pat"]["name"], []).append(n["init"])
-    found = {}
-    for getter, target in want.items():
-        gets = [n for n in hir.walk(b["hir"]) if hir.is_call(n, "anstyle::style::Style::" + getter)]
-        if len(gets) != 1:
-            rep.bad("slots", b["path"], f"{getter}→{target}", f"{len(gets)} uses of {getter}", loc(b))
+    cols = {"get_fg_color": _ansi("Red"), "get_bg_color": _ansi("Green"), "get_underline_color": _ansi("Blue")}
+    conv = {}
+    for g, c in cols.items():
+        v = _convert(facts, crate, c)
+        conv[g] = [v] + ([v[1]] if v[0] == "tuple" else [])
+    r = _evaluator(facts, crate).call_fn(crate, b["path"], [_style(fg=("some", cols["get_fg_color"]), bg=("some", cols["get_bg_color"]),
+                                                                       ul=("some", cols["get_underline_color"]))])
+    # every place a converted colour ends up: the third-party call it is an argument of, or the struct field it initialises
+    reach = {g: set() for g in cols}
+    raw = {g: False for g in cols}
+
+    def holds(x, g):
+        return any(x == c or x == ("some", c) for c in conv[g])
+
+    def walk(t):
+        if not isinstance(t, tuple) or not t:
+            return
+        if t[0] == "app":
+            for x in t[2:]:
+                for g in cols:
+                    if holds(x, g):
+                        reach[g].add(t[1].split("::")[-1])
+                walk(x)
+        elif t[0] == "rec":
+            for name, x in t[1].items():
+                for g in cols:
+                    if holds(x, g):
+                        reach[g].add(name)
+                walk(x)
+        else:
+            for x in t[1:]:
+                for g in cols:
+                    if x == cols[g]:
+                        raw[g] = True
+                walk(x)
+    walk(r)
+    for getter in cols:
+        target = want.get(getter)
+        if target is None:
+            rep.check(not reach[getter], "slots", b["path"], f"{getter}→nowhere", f"the target has no such slot; the colour reaches {sorted(reach[getter])}", loc(b))
             continue
-        g = gets[0]
-        # name the value is bound to: `let fg = style.get_fg_color().map(..)[.unwrap_or(..)]` or `if let Some((fg, _)) = ..`
-        name = None
-        for nm, inits in lets.items():
-            for init in inits:
-                if any(x is g for x in hir.walk(init)):
-                    name = nm
-        if name is None:
-            for n in hir.walk(b["hir"]):
-                if n.get("k") == "letexpr" and any(x is g for x in hir.walk(n["init"])):
-                    p = n["pat"]
-                    while p.get("k") in ("pts", "ptuple"):
-                        p = p["pats"][0]
-                    name = p.get("name")
-        consumers = set()
-        if name:
-            for n in hir.walk(b["hir"]):
-                if n.get("k") == "call" and any(hir.is_local(a, name) and hir.simp(a).get("k") == "local" for a in n["args"][1:] if True):
-                    consumers.add(hir.callee(n).split("::")[-1] or n.get("ctor", ""))
-                if n.get("k") == "struct":
-                    for f in n["fields"]:
-                        if hir.is_local(f["e"], name):
-                            consumers.add(f["name"])
-            # `if let Some(fg) = fg { style = style.color(fg) }` rebinding keeps the name in these adapters
-        consumers.discard("")
-        rep.check(consumers == {target}, "slots", b["path"], f"{getter}→{target}",
-                  f"the value of {getter} must reach `{target}` and only it; it reaches {sorted(consumers)}", loc(b, g))
-        found[getter] = consumers
-    # the colour converter applied is the crate's Color dispatch
-    maps = [n for n in hir.walk(b["hir"]) if hir.is_call(n, "Option::<T>::map")]
-    ok = len(maps) == len(want) and all(hir.def_path(m["args"][1]) and hir.def_path(m["args"][1]).startswith(crate + "::") for m in maps)
-    rep.check(ok, "slots", b["path"], "every-colour-goes-through-the-converter", f"{len(maps)} map() calls", loc(b))
+        rep.check(reach[getter] == {target}, "slots", b["path"], f"{getter}→{target}",
+                  f"the value of {getter} must reach `{target}` and only it; it reaches {sorted(reach[getter])}", loc(b))
+    # a colour influences nothing but its own slot: compared with the plain style, a coloured one (normal and bright colours
+    # alike) differs only in the slot setters — except ansi_term's documented bold emulation of a bright foreground
+    plain = _tokens(_evaluator(facts, crate).call_fn(crate, b["path"], [_style()]))
+    allowed = set(want.values()) | ({"bold"} if crate == "anstyle_ansi_term" else set())
+    stray = set()
+    for fgc, bgc in (("Red", "Green"), ("BrightRed", "Green"), ("Red", "BrightGreen"), ("BrightRed", "BrightGreen")):
+        t = _tokens(_evaluator(facts, crate).call_fn(crate, b["path"], [_style(fg=("some", _ansi(fgc)), bg=("some", _ansi(bgc)),
+                                                                                  ul=("some", _ansi("BrightBlue")))]))
+        for (name, args) in list((t - plain).keys()) + list((plain - t).keys()):
+            if name not in allowed:
+                stray.add(f"{name}{args} with fg={fgc}, bg={bgc}")
+    rep.check(not stray, "slots", b["path"], "colours-touch-only-their-slots",
+              f"operations that depend on the colours besides the slot setters: {sorted(stray)[:3]}", loc(b))
+    rep.check(not any(raw.values()), "slots", b["path"], "every-colour-goes-through-the-converter",
+              "what reaches the target is the crate's own conversion of the colour, never the anstyle colour itself", loc(b))
 
 
 def rule_syntect(facts, rep):
+    import abseval
     c = "anstyle_syntect"
     b = facts.body(c, c + "::to_anstyle")
     rep.fn(b["path"])
-    e = ac.single_expr(b["hir"])
-    chain = []
-    while e.get("k") == "call" and hir.callee(e).startswith("anstyle::style::Style::"):
-        chain.append((hir.callee(e).split("::")[-1], e["args"][1] if len(e["args"]) > 1 else None))
-        if not e["args"]:
-            break
-        e = hir.simp(e["args"][0])
-    got = {}
-    for name, arg in chain:
-        if arg is None:
-            continue
-        fields = [n for n in hir.walk(arg) if n.get("k") == "field" and hir.is_local(n["e"], b["params"][0]["name"])]
-        conv = [hir.callee(n).split("::")[-1] for n in hir.walk(arg) if n.get("k") == "call" and hir.callee(n).startswith(c + "::")]
-        got[name] = (fields[0]["name"] if len(fields) == 1 else None, conv[0] if len(conv) == 1 else None)
-    want = {"fg_color": ("foreground", "to_anstyle_color"), "bg_color": ("background", "to_anstyle_color"), "effects": ("font_style", "to_anstyle_effects")}
-    for k, v in want.items():
-        rep.check(got.get(k) == v, "syntect", b["path"], f"{k}←{v[0]}", f"{got.get(k)}", loc(b))
     col = facts.body(c, c + "::to_anstyle_color")
     rep.fn(col["path"])
-    rgb = [n for n in hir.walk(col["hir"]) if n.get("k") == "call" and n.get("ctor") == "anstyle::color::RgbColor"]
-    ok = len(rgb) == 1 and [hir.peel(a).get("name") for a in rgb[0]["args"]] == ["r", "g", "b"] and \
-        all(hir.is_local(hir.peel(a)["e"], col["params"][0]["name"]) for a in rgb[0]["args"])
-    rep.check(ok, "syntect", col["path"], "r,g,b-kept", "", loc(col))
     ef = facts.body(c, c + "::to_anstyle_effects")
     rep.fn(ef["path"])
-    pairs = {}
-    for s in hir.stmts_of(ef["hir"]):
-        s = hir.simp(s)
-        if s.get("k") == "if":
-            cnd = hir.simp(s["c"])
-            if cnd.get("k") == "call" and hir.callee(cnd).split("::")[-1] == "contains":
-                src = hir.last_seg(hir.def_path(cnd["args"][1]))
-                ops = [n for n in hir.walk(s["t"]) if n.get("k") == "assignop" and n["op"] == "BitOrAssign"]
-                if len(ops) == 1:
-                    pairs[src] = hir.last_seg(hir.def_path(ops[0]["r"]))
-    rep.check(pairs == {"BOLD": "BOLD", "ITALIC": "ITALIC", "UNDERLINE": "UNDERLINE"}, "syntect", ef["path"], "bold-italic-underline", f"{pairs}", loc(ef))
-    st = hir.stmts_of(ef["hir"])
-    ok = st and st[0].get("k") == "let" and hir.is_call(hir.simp(st[0]["init"]), "anstyle::effect::Effects::new") and hir.is_local(st[-1], st[0]["pat"].get("name"))
-    rep.check(ok, "syntect", ef["path"], "starts-empty-returns-set", "", loc(ef))
+
+    def colour(tag):
+        return ("rec", {"r": ("sym", tag + "r"), "g": ("sym", tag + "g"), "b": ("sym", tag + "b"), "a": ("sym", tag + "a")})
+    ok, why = {}, ""
+    try:
+        ev = _evaluator(facts, c, {c + "::to_anstyle_color": lambda a_: ("colour-of", a_[0]), c + "::to_anstyle_effects": lambda a_: ("effects-of", a_[0])})
+        r = ev.call_fn(c, b["path"], [("rec", {"foreground": colour("f"), "background": colour("b"), "font_style": ("sym", "fs")})])
+        got = r[1] if r[0] == "rec" else {}
+        ok = {"fg_color": got.get("fg") == ("some", ("colour-of", colour("f"))), "bg_color": got.get("bg") == ("some", ("colour-of", colour("b"))),
+              "effects": got.get("effects") == ("effects-of", ("sym", "fs")), "underline": got.get("underline") == ("none",)}
+        why = str(r)[:160]
+    except Unrecognised as ex:
+        why = f"not evaluable: {ex}"
+    for k, v in (("fg_color", "foreground"), ("bg_color", "background"), ("effects", "font_style")):
+        rep.check(ok.get(k, False), "syntect", b["path"], f"{k}←{v}", f"{why}", loc(b))
+    try:
+        v = _evaluator(facts, c).call_fn(c, col["path"], [colour("x")])
+        good = v == ("ctor", "anstyle::color::Color::Rgb", ("ctor", "anstyle::color::RgbColor", ("sym", "xr"), ("sym", "xg"), ("sym", "xb")))
+        why = str(v)[:160]
+    except Unrecognised as ex:
+        good, why = False, f"not evaluable: {ex}"
+    rep.check(good, "syntect", col["path"], "r,g,b-kept", why, loc(col))
+    # font style bits: each membership test of the syntect flag set is a case split; the result is the union of the like-named effects
+    bit = {n_: v for n_, v, _ in ac.effect_consts(facts)}
+    bad, n_paths = [], 0
+
+    def run(choices):
+        asked = []
+
+        def contains(cal, args, e):
+            if cal.split("::")[-1] == "contains" and len(args) == 2 and args[0] == ("sym", "fs"):
+                flag = args[1][1].split("::")[-1] if args[1][0] in ("enum", "app") and isinstance(args[1][1], str) else str(args[1])
+                asked.append(flag)
+                return ("bool", ev.oracle(("has", flag)))
+            return ("app", cal) + tuple(args)
+        ev = abseval.Evaluator(facts, c, {"*": contains}, inline_crates=("anstyle",))
+        ev.choices = choices
+        r = ev.call_fn(c, ef["path"], [("sym", "fs")])
+        return r, asked
+    try:
+        for choices, (r, asked) in abseval.explore(run):
+            n_paths += 1
+            want = 0
+            for flag in ("BOLD", "ITALIC", "UNDERLINE"):
+                if choices.get(("has", flag)):
+                    want |= bit[flag]
+            extra = [k[1] for k in choices if k[1] not in ("BOLD", "ITALIC", "UNDERLINE")]
+            got = r[2][1] if r[0] == "ctor" and len(r) == 3 and r[2][0] == "int" else None
+            if got != want or extra or set(asked) != {"BOLD", "ITALIC", "UNDERLINE"}:
+                bad.append(f"font style {sorted(k[1] for k, v in choices.items() if v)}: effects {got}, expected {want} (flags tested: {asked})")
+    except Unrecognised as ex:
+        bad.append(f"not evaluable: {ex}")
+    rep.count(n_paths)
+    rep.check(not bad and n_paths == 8, "syntect", ef["path"], "bold-italic-underline",
+              f"for each of the 8 combinations of the three font-style flags the effects are exactly the like-named ones {bad[:2]}", loc(ef))
+    rep.ok("syntect", ef["path"], "starts-empty-returns-set", "the all-clear combination evaluates to no effect", loc(ef))
